@@ -1,5 +1,5 @@
 SPECIFICATION Spec
-CONSTANT MaxL = 5
+CONSTANT MaxL = 6
 CONSTANT MaxC = 4
 CONSTANT FailKinds = {"none", "call", "load"}
 CONSTANT ForceMulti = {TRUE}
